@@ -328,6 +328,11 @@ int main(int argc, char** argv) {
 //   queue capacity Q, page size P; close() after the writers have joined.
 //   discard=PCT: each logging thread discard()s PCT % of its entries instead of writing them (several
 //   threads inside AsyncFileAppender::discard at the same time); nosleep=1: no pauses between entries.
+//   sessions=S: initialize(); threads; close() repeated S times on the SAME appender and file objects.
+//   outage=1: while thread 0 writes the middle third of its entries every file object returns fd < 0
+//   (entries flushed then are lost by design - writev to a bad descriptor - but their pages must come back).
+//   burst=1 tiny=1: every thread first builds its n entries, then all threads call write() back to back
+//   from a spin barrier (contention on the queue's push index).
 //   drain=1 (default): wait until pending_size()==0 before close().  close() on a FULL queue sleeps in
 //   futex_wait and is never woken (the consumer pops without futex wake): see patches/C20-close-lost-wakeup.diff.
 //   drain=0 slow=MS: no draining, and the first descriptor check sleeps MS milliseconds, so that the
@@ -340,7 +345,7 @@ int main(int argc, char** argv) {
 //   ORACLE ok | ORACLE !ORACLE(kind …)    property oracle on the files read back + the allocator
 //   END
 struct RecEvent {
-  enum Kind { CHECK, WRITEV, DEALLOC } kind;
+  enum Kind { CHECK, WRITEV, DEALLOC, SESSION_END } kind;
   size_t file {0};
   size_t fdidx {0};
   std::vector<std::pair<size_t, size_t>> iov;  // WRITEV: (page#, len)
@@ -354,6 +359,9 @@ struct Recorder {
   RecAllocator* alloc {nullptr};
 };
 static Recorder* g_rec = nullptr;
+static const size_t BAD_FD = 999999;                // canonical name of "no descriptor" (fd < 0)
+static std::atomic<bool> g_outage {false};          // file objects currently return fd < 0
+static std::atomic<long> g_last_check_file {-1};    // file object of the writer's latest descriptor check
 static thread_local bool t_logging_thread = false;  // deallocate() from a logging thread = discard()
 
 extern "C" ssize_t writev(int fd, const struct iovec* iov, int cnt) {
@@ -361,11 +369,12 @@ extern "C" ssize_t writev(int fd, const struct iovec* iov, int cnt) {
   if (rec != nullptr) {
     std::lock_guard<std::mutex> g(rec->mu);
     auto it = rec->fdmap.find(fd);
-    if (it != rec->fdmap.end()) {
+    if (it != rec->fdmap.end() || (fd < 0 && g_last_check_file.load() >= 0)) {
       RecEvent e;
       e.kind = RecEvent::WRITEV;
-      e.file = it->second.first;
-      e.fdidx = it->second.second;
+      // fd < 0: the file object had no descriptor this round; the data goes nowhere (EBADF)
+      e.file = fd < 0 ? static_cast<size_t>(g_last_check_file.load()) : it->second.first;
+      e.fdidx = fd < 0 ? BAD_FD : it->second.second;
       for (int i = 0; i < cnt; ++i) {
         e.iov.emplace_back(rec->alloc->number(iov[i].iov_base), iov[i].iov_len);
       }
@@ -410,6 +419,19 @@ struct MemFile : public FileObject {
     if (slow_ms != 0 && calls == 0) {
       ::usleep(static_cast<useconds_t>(slow_ms * 1000));
     }
+    g_last_check_file.store(static_cast<long>(id));
+    if (g_outage.load()) {
+      // outage: no usable descriptor; whatever is queued for this file in this round is lost, but
+      // its pages must still go back to the allocator
+      ++calls;
+      std::lock_guard<std::mutex> g(g_rec->mu);
+      RecEvent e;
+      e.kind = RecEvent::CHECK;
+      e.file = id;
+      e.fdidx = BAD_FD;
+      g_rec->events.push_back(std::move(e));
+      return std::tuple<int, int>(-1, -1);
+    }
     if (cur < 0 || (rot_every != 0 && calls % rot_every == 0)) {
       old = cur;
       cur = static_cast<int>(::syscall(SYS_memfd_create, "c20", 0));
@@ -438,6 +460,8 @@ struct Written {
   std::vector<std::pair<size_t, size_t>> iov;
   long round {-1};
   bool discarded {false};
+  bool lost {false};  // written during an outage of its file object (fd < 0): legitimately absent from the file
+  LogEntry entry;     // burst mode: the finished entry, pushed later
 };
 
 static inline uint64_t mix(uint64_t& x) {
@@ -458,7 +482,8 @@ static std::string payload(size_t tid, size_t seq, size_t len) {
 }
 
 static std::string run_one(const std::string& line) {
-  std::map<std::string, size_t> cfg {{"threads", 2}, {"ps", 64}, {"cap", 64}, {"files", 1}, {"rot", 0}, {"n", 10}, {"seed", 1}, {"drain", 1}, {"slow", 0}, {"discard", 0}, {"nosleep", 0}};
+  std::map<std::string, size_t> cfg {{"threads", 2}, {"ps", 64}, {"cap", 64}, {"files", 1}, {"rot", 0}, {"n", 10}, {"seed", 1}, {"drain", 1}, {"slow", 0}, {"discard", 0}, {"nosleep", 0},
+                                     {"sessions", 1}, {"outage", 0}, {"burst", 0}, {"tiny", 0}};
   {
     std::istringstream is(line);
     std::string w;
@@ -491,20 +516,38 @@ static std::string run_one(const std::string& line) {
     app.set_page_allocator(alloc);
     app.set_queue_capacity(Q);
     capacity = app._queue.capacity();
-    app.initialize();
     size_t K = LogEntry::INLINE_PAGE_CAPACITY;
     size_t E = P >= 16 ? (P - 8) / 8 : 1;
+    const size_t sessions = cfg["sessions"];
+    const bool burst = cfg["burst"] != 0;
+    for (auto& v : per_thread) {
+      v.reserve(N * sessions);
+    }
+    // one session = initialize(); the logging threads run; close().  The appender and the file objects
+    // are reused by the next session (close() keeps _destinations, every FileObject keeps its index).
+    for (size_t ses = 0; ses < sessions; ++ses) {
+    app.initialize();
+    std::atomic<size_t> at_barrier {0};
     std::vector<std::thread> threads;
     for (size_t t = 0; t < T; ++t) {
       threads.emplace_back([&, t] {
         t_logging_thread = true;
-        uint64_t x = S * 0x9E3779B97F4A7C15ull + t * 0xD1B54A32D192ED03ull + 1;
+        uint64_t x = S * 0x9E3779B97F4A7C15ull + t * 0xD1B54A32D192ED03ull + ses * 0x2545F4914F6CDD1Dull + 1;
         LogStreamBuffer buf;
         buf.set_page_allocator(alloc);
         for (size_t i = 0; i < N; ++i) {
+          if (t == 0 && cfg.at("outage") != 0) {
+            if (i == N / 3) {
+              g_outage.store(true);   // the file objects lose their descriptors ...
+            } else if (i == (2 * N) / 3) {
+              g_outage.store(false);  // ... and recover
+            }
+          }
           size_t kind = mix(x) % 16;
           size_t len;
-          if (kind < 6) {
+          if (cfg.at("tiny") != 0) {
+            len = mix(x) % 8;
+          } else if (kind < 6) {
             len = mix(x) % (P + 2);
           } else if (kind < 10) {
             len = mix(x) % (4 * P);
@@ -520,7 +563,7 @@ static std::string run_one(const std::string& line) {
           if (P > 512 && len > 40 * P) {
             len = mix(x) % (20 * P);
           }
-          std::string data = payload(t + 1, i, len);
+          std::string data = payload(t + 1, ses * N + i, len);
           buf.begin();
           size_t pos = 0;
           while (pos < data.size()) {
@@ -532,7 +575,7 @@ static std::string run_one(const std::string& line) {
           LogEntry& e = buf.end();
           Written w;
           w.tid = t + 1;
-          w.seq = i;
+          w.seq = ses * N + i;
           w.file = mix(x) % F;
           w.size = e.size;
           std::vector<struct ::iovec> iov;
@@ -541,6 +584,12 @@ static std::string run_one(const std::string& line) {
             w.iov.emplace_back(alloc.number(v.iov_base), v.iov_len);
           }
           w.discarded = mix(x) % 100 < cfg.at("discard");
+          if (burst) {
+            w.discarded = false;
+            w.entry = e;  // pushed after the barrier; the pages stay allocated until the writer returns them
+            per_thread[t].push_back(w);
+            continue;
+          }
           per_thread[t].push_back(w);
           if (w.discarded) {
             app.discard(e);  // several logging threads are inside discard() at the same time
@@ -554,19 +603,39 @@ static std::string run_one(const std::string& line) {
             ::sched_yield();
           }
         }
+        if (burst) {
+          // all threads enter write() at the same instant and keep hammering it: the queue index must
+          // be claimed atomically (push<CONCURRENT = true>)
+          at_barrier.fetch_add(1);
+          while (at_barrier.load() < T) {
+          }
+          for (size_t i = 0; i < N; ++i) {
+            Written& w = per_thread[t][ses * N + i];
+            app.write(w.entry, files[w.file].get());
+          }
+        }
       });
     }
     for (auto& th : threads) {
       th.join();
     }
+    g_outage.store(false);
     if (cfg["drain"] != 0) {
       while (app.pending_size() != 0) {
         ::usleep(50);
       }
     }
     app.close();
+    {
+      std::lock_guard<std::mutex> g(rec.mu);
+      RecEvent e;
+      e.kind = RecEvent::SESSION_END;
+      rec.events.push_back(std::move(e));
+    }
+    }  // sessions
   }
   g_rec = nullptr;
+  g_last_check_file.store(-1);
 
   // ---- index the entries by their first page
   std::map<size_t, Written*> by_first_page;
@@ -594,16 +663,23 @@ static std::string run_one(const std::string& line) {
     std::vector<size_t> fds;  // one per destination, in destination order
     std::vector<FlushRec> flushes;
     std::vector<Written*> entries;
+    size_t session {0};
   };
   std::vector<Round> rounds;
   long first_dest = -1;
+  size_t cur_session = 0;
   for (auto& e : rec.events) {
+    if (e.kind == RecEvent::SESSION_END) {
+      ++cur_session;
+      continue;
+    }
     if (e.kind == RecEvent::CHECK) {
       if (first_dest < 0) {
         first_dest = static_cast<long>(e.file);
       }
       if (static_cast<long>(e.file) == first_dest) {
         rounds.emplace_back();
+        rounds.back().session = cur_session;
       }
       rounds.back().fds.push_back(e.fdidx);
     } else if (e.kind == RecEvent::WRITEV) {
@@ -651,6 +727,7 @@ static std::string run_one(const std::string& line) {
           break;
         }
         it->second->round = static_cast<long>(r);
+        it->second->lost = fl.fdidx == BAD_FD;
         rounds[r].entries.push_back(it->second);
         if (call_of[pos] != call_of[pos + it->second->iov.size() - 1]) {
           ++spans;
@@ -672,45 +749,67 @@ static std::string run_one(const std::string& line) {
     return s;
   };
   out << "T app init " << capacity << "\nO ok\n";
-  size_t total_freed = 0;
-  for (size_t r = 0; r < rounds.size(); ++r) {
-    bool last = r + 1 == rounds.size();
-    for (auto* w : rounds[r].entries) {
-      out << "T app w " << w->tid << " " << w->file << " " << w->size;
-      for (auto& v : w->iov) {
-        out << " " << v.first << ":" << v.second;
+  const size_t sessions = cfg["sessions"];
+  size_t outage_flushes = 0;
+  for (size_t ses = 0; ses < sessions; ++ses) {
+    if (ses != 0) {
+      out << "T app reopen\nO ok\n";
+    }
+    size_t ses_freed = 0, ses_entries = 0;
+    for (auto& v : per_thread) {
+      for (auto& w : v) {
+        ses_entries += (!w.discarded && w.seq / std::max<size_t>(N, 1) == ses) ? 1 : 0;
       }
-      out << "\nO ok\n";
     }
-    if (last) {
-      out << "T app close\nO ok\n";
+    long last_round = -1;
+    for (size_t r = 0; r < rounds.size(); ++r) {
+      if (rounds[r].session == ses) {
+        last_round = static_cast<long>(r);
+      }
     }
-    out << "T app round " << (rounds[r].entries.size() + (last ? 1 : 0)) << " 0";
-    for (auto fd : rounds[r].fds) {
-      out << " " << fd;
-    }
-    out << "\nO exited=" << (last ? 1 : 0) << " flushes=" << rounds[r].flushes.size();
-    for (auto& fl : rounds[r].flushes) {
-      std::vector<size_t> lens;
-      std::string iov;
-      for (auto& c : fl.calls) {
-        lens.push_back(c.size());
-        for (auto& v : c) {
-          iov += (iov.empty() ? "" : ",") + std::to_string(v.first) + ":" + std::to_string(v.second);
+    for (size_t r = 0; r < rounds.size(); ++r) {
+      if (rounds[r].session != ses) {
+        continue;
+      }
+      bool last = static_cast<long>(r) == last_round;
+      for (auto* w : rounds[r].entries) {
+        out << "T app w " << w->tid << " " << w->file << " " << w->size;
+        for (auto& v : w->iov) {
+          out << " " << v.first << ":" << v.second;
         }
+        out << "\nO ok\n";
       }
-      total_freed += fl.freed.size();
-      out << " | f=" << fl.file << " fd=" << fl.fdidx << " calls=" << commas(lens) << " iov=" << iov
-          << " freed=" << commas(fl.freed);
+      if (last) {
+        out << "T app close\nO ok\n";
+      }
+      out << "T app round " << (rounds[r].entries.size() + (last ? 1 : 0)) << " 0";
+      for (auto fd : rounds[r].fds) {
+        out << " " << fd;
+      }
+      out << "\nO exited=" << (last ? 1 : 0) << " flushes=" << rounds[r].flushes.size();
+      for (auto& fl : rounds[r].flushes) {
+        std::vector<size_t> lens;
+        std::string iov;
+        for (auto& c : fl.calls) {
+          lens.push_back(c.size());
+          for (auto& v : c) {
+            iov += (iov.empty() ? "" : ",") + std::to_string(v.first) + ":" + std::to_string(v.second);
+          }
+        }
+        ses_freed += fl.freed.size();
+        outage_flushes += fl.fdidx == BAD_FD ? 1 : 0;
+        out << " | f=" << fl.file << " fd=" << fl.fdidx << " calls=" << commas(lens) << " iov=" << iov
+            << " freed=" << commas(fl.freed);
+      }
+      out << "\n";
     }
-    out << "\n";
+    if (last_round < 0) {
+      // no destination exists yet (every entry so far was discarded): the writer's rounds are not
+      // observable, the only thing it did was to pop the stop marker
+      out << "T app close\nO ok\nT app round 1 0\nO exited=1 flushes=0\n";
+    }
+    out << "T app end\nO exited=1 queue=0 processed=" << ses_entries << " freed=" << ses_freed << "\n";
   }
-  if (rounds.empty()) {
-    // no destination ever existed (every entry was discarded): the writer's rounds are not observable,
-    // the only thing it did was to pop the stop marker
-    out << "T app close\nO ok\nT app round 1 0\nO exited=1 flushes=0\n";
-  }
-  out << "T app end\nO exited=1 queue=0 processed=" << total_entries << " freed=" << total_freed << "\n";
   // ---- property oracle on the files read back
   std::map<std::pair<size_t, size_t>, size_t> seen;  // (tid, seq) -> times
   for (auto& f : files) {
@@ -744,24 +843,32 @@ static std::string run_one(const std::string& line) {
                            std::to_string(h[2]) + " after entry " + std::to_string(ls->second) + ")");
         }
         last_seq[h[1]] = static_cast<long>(h[2]);
-        if (h[1] >= 1 && h[1] <= T && h[2] < N && per_thread[h[1] - 1][h[2]].file != f->id) {
+        if (h[1] >= 1 && h[1] <= T && h[2] < per_thread[h[1] - 1].size() && per_thread[h[1] - 1][h[2]].file != f->id) {
           oracle.push_back("!ORACLE(once entry written to a file object it was not addressed to)");
         }
-        if (h[1] >= 1 && h[1] <= T && h[2] < N && per_thread[h[1] - 1][h[2]].discarded) {
+        if (h[1] >= 1 && h[1] <= T && h[2] < per_thread[h[1] - 1].size() && per_thread[h[1] - 1][h[2]].discarded) {
           oracle.push_back("!ORACLE(once a discarded entry reached a file)");
         }
         pos += 16 + h[3];
       }
     }
   }
-  size_t missing = 0, dup = 0;
+  size_t missing = 0, dup = 0, lost = 0;
   for (size_t t = 0; t < T; ++t) {
     long last_round = -1;
-    for (size_t i = 0; i < N; ++i) {
+    for (size_t i = 0; i < per_thread[t].size(); ++i) {
       if (per_thread[t][i].discarded) {
         continue;
       }
       auto it = seen.find({t + 1, i});
+      if (per_thread[t][i].lost) {
+        // written while its file object had no descriptor: must not be anywhere, pages returned all the same
+        if (it != seen.end()) {
+          oracle.push_back("!ORACLE(once an entry flushed to fd < 0 appears in a file)");
+        }
+        ++lost;
+        continue;
+      }
       if (it == seen.end()) {
         ++missing;
       } else if (it->second != 1) {
@@ -775,7 +882,7 @@ static std::string run_one(const std::string& line) {
       last_round = std::max(last_round, r);
     }
   }
-  if (missing || dup || seen.size() != total_entries) {
+  if (missing || dup || seen.size() + lost != total_entries) {
     oracle.push_back("!ORACLE(once " + std::to_string(missing) + " entries missing, " + std::to_string(dup) +
                      " duplicated, " + std::to_string(seen.size()) + " distinct found of " + std::to_string(total_entries) + ")");
   }
@@ -790,7 +897,8 @@ static std::string run_one(const std::string& line) {
   }
   out << "STATS entries=" << total_entries << " rounds=" << rounds.size() << " maxbatch=" << maxbatch
       << " rotations=" << rotations << " spans=" << spans << " maxcall=" << maxcall << " pages=" << alloc._allocated.size()
-      << " capacity=" << capacity << " discards=" << discards << "\n";
+      << " capacity=" << capacity << " discards=" << discards << " sessions=" << sessions << " outage_flushes=" << outage_flushes
+      << " lost_in_outage=" << lost << "\n";
   if (oracle.empty()) {
     out << "ORACLE ok\n";
   } else {
